@@ -28,6 +28,10 @@ func checkC16(c *Ctx, r *Report) {
 	for _, e := range st.Errs {
 		r.Undecided("C16.a", "R11 STAGED", "staging", "-", e)
 	}
+	// prerequisite: the skeletons are checked with "exactly the assumed prologue / %union body / epilogue" in place —
+	// that is only what the generator emits if those three texts reach the output as the user wrote them
+	includeSome(r, "C16.a", func(sub *Report) { c10b(c, sub); c10SectionExtents(c, sub) },
+		"arrives-unchanged", "value-is-the-text-between-the-markers", "closing-brace-balances-the-opening-one")
 	nSk := 0
 	for _, sc := range st.Configs {
 		name := "skeleton " + sc.V.Name
@@ -130,6 +134,8 @@ func holeClass(h *SHole) string {
 		return "display-name"
 	case strings.HasSuffix(p, ".Name"):
 		return "name"
+	case strings.HasSuffix(p, ".Alias"):
+		return "alias"
 	case strings.HasSuffix(p, ".GetCode()"), strings.HasSuffix(p, ".GetCodeCopy()"), strings.HasSuffix(p, ".GetUion()"):
 		return "user-section"
 	case p == "$match" || p == "$match[1:]":
@@ -339,10 +345,22 @@ func holeVerdict(class, ctx string) (string, string) {
 		}
 	case "name":
 		switch ctx {
+		case "quoted":
+			return "safe", "emitted through %q: a valid Go string literal for every value"
 		case "comment":
 			return "safe", "inside a comment; names cannot contain `*/`"
 		case "code-declared-name":
 			return "unsafe", "a token name becomes a Go constant identifier verbatim: a token named like a Go keyword (type, func, range, …) or like an identifier of the generated parser (Parser, Context, StateSym, IsTrace, …) makes the file fail to compile"
+		}
+	case "alias":
+		// the text between the double quotes of `%token NAME "alias"`: any characters, possibly none
+		switch ctx {
+		case "quoted":
+			return "safe", "emitted through %q: a valid Go string literal for every value"
+		case "quoted-format":
+			return "unsafe", "an alias is quoted with %q but the literal is then used as a Printf format: a `%` in it is taken for a verb"
+		case "string", "format", "comment", "code", "code-selector", "code-declared-name", "char":
+			return "unsafe", "a token alias is arbitrary user text: pasted unescaped into " + ctx + " context it can end the literal / comment or form other code"
 		}
 	case "character":
 		switch ctx {
